@@ -92,6 +92,7 @@ def required_reach(tier: str) -> dict[str, int]:
         "kinds.with_valid_case": 40,
         "kinds.with_invalid_case": 30,
         "contract.uds_memory_parameters": 100,
+        "suppress.defaulted": 1000,
         "client.methods_exercised": 30,
         "suppress.set": 100,
         "suppress.clear": 100,
@@ -170,8 +171,11 @@ class Monitor:
         ctx.reach(f"valid:{c.cls}")
         if "suppress_response" in c.fields:
             ctx.reach("suppress.set" if c.fields["suppress_response"] else "suppress.clear")
+        args, kwargs = defaulted_suppress(cls.__init__, c)
+        if len(args) != len(c.args) or len(kwargs) != len(c.kwargs):
+            ctx.reach("suppress.defaulted")
         try:
-            obj = cls(*c.args, **c.kwargs)
+            obj = cls(*args, **kwargs)
         except Exception as e:
             ctx.violation(f"{c.cls}/construct-raises/{type(e).__name__}", f"constructing {c.cls} with in-range parameters raises", {**w, "error": repr(e)})
             return
@@ -263,13 +267,34 @@ class CaptureTransport:
         return bytes([0x7F, data[0], 0x10])
 
 
+def defaulted_suppress(fn: Any, c: Case) -> tuple[tuple[Any, ...], dict[str, Any]]:
+    """'No suppression' is what a user gets who does not mention the bit at all: for about half of the cases with
+    suppress_response=False the argument is left out, so that the code's own default is what is observed."""
+    import zlib
+
+    args, kwargs = tuple(c.args), dict(c.kwargs)
+    if c.fields.get("suppress_response") is not False or not (zlib.crc32(repr(c.ident()).encode()) & 1):
+        return args, kwargs
+    if kwargs.get("suppress_response") is False:
+        del kwargs["suppress_response"]
+        return args, kwargs
+    try:
+        names = [p for p in inspect.signature(fn).parameters if p != "self"]
+    except (TypeError, ValueError):
+        return args, kwargs
+    if args and args[-1] is False and len(args) <= len(names) and names[len(args) - 1] == "suppress_response":
+        return args[:-1], kwargs
+    return args, kwargs
+
+
 async def client_bytes(method: str, c: Case) -> bytes | Exception:
     from gallia.services.uds.core.client import UDSClient
 
     t = CaptureTransport()
     cl = UDSClient(t, timeout=1.0)  # type: ignore[arg-type]
+    args, kwargs = defaulted_suppress(getattr(UDSClient, method), c)
     try:
-        await getattr(cl, method)(*c.args, **c.kwargs)
+        await getattr(cl, method)(*args, **kwargs)
     except Exception as e:
         if not t.sent:
             return e
